@@ -331,6 +331,7 @@ func (enc *Encoder) Reset() *Encoder {
 // ResetBuffer of the Encoder.
 func (enc *Encoder) ResetBuffer() *Encoder {
 	enc.buf = enc.buf[:0]
+	enc.off = 0 // nothing of the emptied buffer has been flushed
 	enc.Error = nil
 	return enc
 }
